@@ -258,7 +258,7 @@ static struct {
     const char *path_ptr; char *path_copy; char **argv_ptr, **argv_copy, **envp_ptr, **envp_copy; char **environ_ptr; char **environ_copy;
     int path_same_ptr, path_eq, argv_same_ptr, argv_eq, envp_same_ptr, envp_eq, environ_same_ptr, environ_eq, kind_ok;
 } R;
-static int pre_errno = 0;
+static int pre_errno = 0, last_errno = 0;
 static int snapshot_at_entry = 1, want_digest = 0, lean = 0;
 static size_t lean_log_off = 0, lean_devlog_off = 0, lean_sock_off = 0;
 static void lean_report(void) {
@@ -304,9 +304,9 @@ static void do_call(char **tok, int ntok) {
 #ifdef VERIF_HEAPTRACK
     live0 = ht_live; bytes0 = ht_bytes; ht_on = 1;
 #endif
-    errno = pre_errno;      /* the caller's ambient errno */
+    errno = pre_errno >= 0 ? pre_errno : last_errno;      /* the caller's ambient errno; -1 = whatever the previous call left behind (a failed exec leaves its errno) */
     int r = R.is_execve ? execve(path, argv, envp) : execv(path, argv);
-    int e = errno;
+    int e = errno; last_errno = e;
 #ifdef VERIF_HEAPTRACK
     ht_on = 0;
     out(",\"heap_delta_live\":%ld,\"heap_delta_bytes\":%ld", ht_live - live0, ht_bytes - bytes0);
